@@ -1307,6 +1307,10 @@ pub fn invariants<K: KeyT, V: ValT, const N: usize>(m: &Map<K, V, N>, cx: &mut C
             cx.check(C01, idx.is_err(), || format!("indexing with the stored key object {} (not equal to itself) did not panic", k.kd()));
             continue;
         }
+        // a borrowed form that aliases the stored key in memory without being equal to it is absent
+        if let Some(found) = k.alias_probe(|q| m.contains_key(q) || m.get(q).is_some() || m.get_key_value(q).is_some()) {
+            cx.check(C01, !found, || format!("a lookup through a borrowed value that shares the address of the stored key {} but is not equal to it finds an entry", k.kd()));
+        }
         let got = m.get::<K>(k).map(|x| x as *const V);
         cx.check(pm, got == Some(*v as *const V), || {
             format!("key {} yielded by iter() does not look up to the value yielded with it", k.kd())
